@@ -41,12 +41,83 @@ var hangSeen = map[string]bool{}
 func confirmHang(kind string, hseed uint64, rerun func()) bool {
 	k := fmt.Sprintf("%s/%d", kind, hseed)
 	if hangSeen[k] {
+		wedged[kind]++
 		return true
 	}
 	hangSeen[k] = true
 	run.Count("watchdog/" + kind + "/first-expiry")
 	rerun()
 	return false
+}
+
+// wedged counts confirmed no-progress cases per stream.  A stream with two of them is
+// abandoned (its goroutines are leaked): the check must end within seconds, with
+// the violation, not sit out the harness timeout.
+var wedged = map[string]int{}
+
+const maxWedged = 2
+
+func streamDead(kind string) bool {
+	total := 0
+	for _, c := range wedged {
+		total += c
+	}
+	if wedged[kind] >= maxWedged || total >= 2*maxWedged {
+		run.Count("watchdog/" + kind + "/skipped-after-wedge")
+		return true
+	}
+	return false
+}
+
+// per-case watchdogs: cases take milliseconds; the first expiry is re-confirmed by a
+// second, longer run of the same case unless the state itself proves the wedge
+const (
+	watchFirst   = 3 * time.Second
+	watchConfirm = 8 * time.Second
+)
+
+func watch(kind string, hseed uint64) time.Duration {
+	if hangSeen[fmt.Sprintf("%s/%d", kind, hseed)] {
+		return watchConfirm
+	}
+	return watchFirst
+}
+
+// provenWedge inspects the cache behind a recorded Set execution: a call that has not
+// returned, on a key for which no fetch function is running, whose in-flight entry
+// has no run slot available, can never proceed.
+func provenWedge(t *traceCache) (string, bool) {
+	if t == nil {
+		return "", false
+	}
+	t.mu.Lock()
+	defer t.mu.Unlock()
+	n := len(t.calls)
+	returned := make([]bool, n)
+	running := map[setCall]int{}
+	for _, l := range t.log {
+		switch l.kind {
+		case 's':
+			running[t.calls[l.call]]++
+		case 'e', 'f', 'c':
+			running[t.calls[l.call]]--
+		case 'R', 'E':
+			returned[l.call] = true
+		}
+	}
+	for g, c := range t.calls {
+		if returned[g] || running[c] != 0 {
+			continue
+		}
+		id, ok := auth.VerifInFlight(t.inner, c.host, c.scheme, c.key)
+		if !ok {
+			continue
+		}
+		if o, is := id.(interface{ VerifSlotFree() bool }); is && !o.VerifSlotFree() {
+			return fmt.Sprintf("call %d Set(%q, %v, %q) waits on an in-flight entry whose run slot is gone although no fetch function is running for that key", g, c.host, c.scheme, c.key), true
+		}
+	}
+	return "", false
 }
 
 func waitTimeout(wg *sync.WaitGroup, d time.Duration) bool {
@@ -75,13 +146,14 @@ func onceCase(hseed uint64) {
 		mu.Unlock()
 	}
 	type plan struct {
-		kind   int // 0 value, 1 error value, 2 f sees its context cancelled, 3 same but returns the error wrapped (as net/http does)
+		kind   int // 0 value, 1 error value, 2 f sees its context cancelled, 3 same but returns the error wrapped (as net/http does),
+		// 4 the caller's context is ALREADY cancelled when it calls Do, and it calls before everybody else
 		cancel bool
 		j1, j2 uint64
 	}
 	plans := make([]plan, n)
 	for g := range plans {
-		plans[g] = plan{kind: []int{0, 0, 1, 2, 2, 3}[r.Intn(6)], cancel: r.Chance(1, 4), j1: r.U64(), j2: r.U64()}
+		plans[g] = plan{kind: []int{0, 0, 1, 2, 2, 3, 4}[r.Intn(7)], cancel: r.Chance(1, 4), j1: r.U64(), j2: r.U64()}
 	}
 	errVal := make([]error, n)
 	for g := range errVal {
@@ -109,17 +181,35 @@ func onceCase(hseed uint64) {
 		fails = append(fails, violation{sig, fmt.Sprintf(format, a...)})
 		failMu.Unlock()
 	}
+	// the callers with an already cancelled context go first; the others start when
+	// they have returned (or after a moment)
+	var early sync.WaitGroup
+	for g := 0; g < n; g++ {
+		if plans[g].kind == 4 {
+			early.Add(1)
+		}
+	}
+	earlyDone := make(chan struct{})
+	go func() { waitTimeout(&early, 2*time.Millisecond); close(earlyDone) }()
+	returned := make([]bool, n)
 	for g := 0; g < n; g++ {
 		wg.Add(1)
 		go func(g int) {
 			defer wg.Done()
+			defer func() { mu.Lock(); returned[g] = true; mu.Unlock() }()
 			p := plans[g]
 			ctx, cancel := context.WithCancel(context.Background())
 			defer cancel()
-			if p.cancel || p.kind >= 2 {
-				go func() { jitter(p.j2); jitter(p.j2 >> 3); cancel() }()
+			if p.kind == 4 {
+				defer early.Done()
+				cancel()
+			} else {
+				<-earlyDone
+				if p.cancel || p.kind >= 2 {
+					go func() { jitter(p.j2); jitter(p.j2 >> 3); cancel() }()
+				}
+				jitter(p.j1)
 			}
-			jitter(p.j1)
 			called := false
 			first, res, err := auth.VerifOnceDo(o, ctx, func() (interface{}, error) {
 				called = true
@@ -156,9 +246,37 @@ func onceCase(hseed uint64) {
 			}
 		}(g)
 	}
-	if !waitTimeout(&wg, 20*time.Second) {
+	if !waitTimeout(&wg, watch("once", hseed)) {
+		// who is stuck, and in which state is the Once?
+		mu.Lock()
+		tr := append([]string(nil), trace...)
+		var stuck []int
+		for g, ok := range returned {
+			if !ok {
+				stuck = append(stuck, g)
+			}
+		}
+		mu.Unlock()
+		inF, published := false, false
+		for _, e := range tr {
+			switch e[0] {
+			case 'a':
+				inF = true
+			case 'c':
+				inF = false
+			case 'd':
+				inF, published = false, true
+			}
+		}
+		if !inF && !published && !o.VerifSlotFree() {
+			// proof of the wedge in the state itself: nobody runs the function, no result
+			// is published, and the run slot is gone -- the waiting callers can never proceed
+			wedged["once"]++
+			run.OracleFail(id, "once-wedged", fmt.Sprintf("callers %v of Once.Do wait forever: nobody is inside the function, no result is published, yet the run slot is not available (a caller took it and returned without handing it back); trace %v", stuck, tr), rep)
+			return
+		}
 		if confirmHang("once", hseed, func() { onceCase(hseed) }) {
-			run.OracleFail(id, "once-hang", fmt.Sprintf("Once.Do did not return within 20s (twice); trace so far %v", trace), rep)
+			run.OracleFail(id, "once-wedged", fmt.Sprintf("callers %v of Once.Do did not return (twice); trace so far %v", stuck, tr), rep)
 		}
 		return
 	}
@@ -177,6 +295,23 @@ func onceCase(hseed uint64) {
 	}
 	if done > 1 {
 		addFail("once-two-results", "the function completed %d times: %v", done, trace)
+	}
+	// the same execution on the slot machine generated from once.go: at the end the
+	// model's slot must be what the hook sees
+	{
+		slotState := "taken"
+		if done > 0 {
+			slotState = "closed"
+		} else if o.VerifSlotFree() {
+			slotState = "free"
+		}
+		run.Case(run.NewID(), fmt.Sprintf("OS %d %s", len(trace), strings.Join(trace, " ")), "ACCEPT "+slotState)
+		run.Count("once-slot/" + slotState)
+	}
+	// slot bookkeeping at the quiescent point: every caller has returned, so the slot
+	// is available again or a result is published
+	if done == 0 && !o.VerifSlotFree() {
+		addFail("once-slot-lost", "every caller of Once.Do has returned, no result is published, but the run slot is not available: the next caller will wait forever; trace %v", trace)
 	}
 	running := -1
 	for _, e := range trace {
@@ -290,9 +425,16 @@ func setCase(hseed uint64) {
 		}(i, c)
 	}
 	close(start)
-	if !waitTimeout(&wg, 20*time.Second) {
+	if !waitTimeout(&wg, watch("set", hseed)) {
+		if why, proven := provenWedge(tc); proven {
+			wedged["set"]++
+			line, _, _ := buildSetTrace(tc)
+			run.OracleFail(id, "set-wedged", why+"; events so far: "+line, rep)
+			return
+		}
 		if confirmHang("set", hseed, func() { setCase(hseed) }) {
-			run.OracleFail(id, "set-hang", "concurrentCache.Set did not return within 20s (twice)", rep)
+			line, _, _ := buildSetTrace(tc)
+			run.OracleFail(id, "set-wedged", "calls of the auth cache's Set did not return (twice): no progress; events so far: "+line, rep)
 		}
 		return
 	}
@@ -340,6 +482,16 @@ func mixCase(hseed uint64) {
 	if flavour != "none" {
 		tc = &traceCache{inner: newCache(flavour)}
 		cache = tc
+		// a call that receives the token of another call's in-flight fetch: the model's
+		// answer AShare at this point of its script
+		tc.onShared = func(job int, scheme auth.Scheme, tok string) {
+			w.mu.Lock()
+			defer w.mu.Unlock()
+			if is, ok := w.tokens[tok]; ok && scheme == auth.SchemeBearer {
+				w.jobAnswers[job] = append(w.jobAnswers[job], fmt.Sprintf("S%d", is.serial))
+				run.Count("mixjob/shared-fetch-result")
+			}
+		}
 	}
 	client := &auth.Client{Client: &http.Client{Transport: w}, Cache: cache, Credential: w.credentialFunc(), ForceAttemptOAuth2: oauth2}
 	n := 4 + r.Intn(12)
@@ -352,10 +504,13 @@ func mixCase(hseed uint64) {
 		j            uint64
 		valid        bool
 		cancelFetch  bool // the caller's context is cancelled while its token request is in flight
+		cancel401    bool // the caller's context is cancelled when the registry's challenge arrives
 		cancel       context.CancelFunc
 	}
 	jobs := make([]job, n)
 	w.perJobFetch = map[int]int{}
+	w.jobEvents, w.jobAnswers = map[int][]string{}, map[int][]string{}
+	w.cancelAt401 = map[int]context.CancelFunc{}
 	w.noRedirect = true
 	w.fetchHook = func(req *http.Request) error {
 		if i, ok := req.Context().Value(jobKey{}).(int); ok && jobs[i].cancelFetch {
@@ -373,6 +528,9 @@ func mixCase(hseed uint64) {
 		if r.Chance(1, 6) {
 			jobs[i].cancelFetch = true
 			jobs[i].valid = false
+		} else if r.Chance(1, 6) {
+			jobs[i].cancel401 = true
+			jobs[i].valid = false
 		}
 	}
 	results := make([]string, n)
@@ -383,9 +541,19 @@ func mixCase(hseed uint64) {
 		go func(i int, jb *job) {
 			defer wg.Done()
 			jitter(jb.j)
-			ctx, cancel := context.WithCancel(context.Background())
+			ctx, cancel := context.WithTimeout(context.Background(), 30*time.Second)
 			defer cancel()
 			jb.cancel = cancel
+			if jb.cancel401 {
+				w.mu.Lock()
+				w.cancelAt401[i] = cancel
+				w.mu.Unlock()
+				if jb.j&1 == 0 {
+					time.Sleep(0) // the doomed callers tend to arrive first
+				}
+			} else if jb.j&3 != 0 {
+				runtime.Gosched()
+			}
 			ctx = context.WithValue(ctx, jobKey{}, i)
 			if len(jb.hints) > 0 {
 				ctx = auth.WithScopesForHost(ctx, jb.g.host, clone(jb.hints)...)
@@ -412,15 +580,91 @@ func mixCase(hseed uint64) {
 			}
 		}(i, jb)
 	}
-	if !waitTimeout(&wg, 30*time.Second) {
+	if !waitTimeout(&wg, watch("do", hseed)) {
+		if why, proven := provenWedge(tc); proven {
+			wedged["do"]++
+			run.OracleFail(id, "do-wedged", fmt.Sprintf("concurrent mix %d (cache %s): %s", hseed, flavour, why), rep)
+			return
+		}
 		if confirmHang("do", hseed, func() { mixCase(hseed) }) {
-			run.OracleFail(id, "do-hang", "concurrent Client.Do calls did not return within 30s (twice)", rep)
+			var stuck []int
+			for i, res := range results {
+				if res == "" {
+					stuck = append(stuck, i)
+				}
+			}
+			run.OracleFail(id, "do-wedged", fmt.Sprintf("concurrent mix %d (cache %s): requests %v did not return (twice): no progress", hseed, flavour, stuck), rep)
 		}
 		return
 	}
 	setTraceCase(tc, "mix-"+flavour)
 	w.mu.Lock()
 	defer w.mu.Unlock()
+	// every call on its own, replayed on Client.Do-with-oracle-reads (Model/AuthConc.v):
+	// what the cache told it and what the servers answered must give exactly its sends
+	for i := range jobs {
+		jb := &jobs[i]
+		if jb.cancelFetch || jb.cancel401 {
+			continue
+		}
+		var rd *jobReads
+		if tc != nil {
+			tc.mu.Lock()
+			rd = tc.reads[i]
+			tc.mu.Unlock()
+		}
+		if rd == nil {
+			rd = &jobReads{scheme: "-"}
+		}
+		if rd.setCalls > 0 && !rd.fetched && len(rd.sets) == 0 {
+			run.Count("mixjob/unjudged-shared-failure") // it received another call's fetch ERROR: not in the model
+			continue
+		}
+		o := 0
+		if oauth2 {
+			o = 1
+		}
+		var sb strings.Builder
+		fmt.Fprintf(&sb, "J %s %d %d", flavour, o, len(w.regs))
+		for _, g := range w.regs {
+			fmt.Fprintf(&sb, " %d %s", g.idx, credFlags(g.clientCred))
+		}
+		sb.WriteString(w.credErrList())
+		fmt.Fprintf(&sb, " %d", len(w.ptable))
+		for _, e := range w.ptable {
+			sb.WriteString(" " + e)
+		}
+		body := "none"
+		if jb.method == "PUT" {
+			body = "rewind"
+		}
+		fmt.Fprintf(&sb, " %d %s %s %s %s", jb.g.idx, body, hexList(jb.hints), hexList(jb.ghints), rd.scheme)
+		if rd.tok1 != "" {
+			sb.WriteString(" " + w.projectToken(rd.tok1Scheme, rd.tok1))
+		} else {
+			sb.WriteString(" -")
+		}
+		fmt.Fprintf(&sb, " %d", len(rd.tok2))
+		for _, t2 := range rd.tok2 {
+			if t2.found {
+				fmt.Fprintf(&sb, " %s %s", common.Hex(t2.key), w.projectToken(t2.scheme, t2.tok))
+			} else {
+				fmt.Fprintf(&sb, " %s -", common.Hex(t2.key))
+			}
+		}
+		ans := w.jobAnswers[i]
+		fmt.Fprintf(&sb, " %d", len(ans))
+		for _, a := range ans {
+			sb.WriteString(" " + a)
+		}
+		impl := strings.Join(append(append([]string{}, w.jobEvents[i]...), results[i]), " ")
+		if tc != nil && len(rd.sets) > 0 {
+			st := rd.sets[len(rd.sets)-1]
+			impl += fmt.Sprintf(" +%s:%s:%s", strings.ToLower(st.scheme.String()), common.Hex(st.key), w.projectToken(st.scheme, st.tok))
+		}
+		run.Case(run.NewID(), sb.String(), impl)
+		run.Count("mixjob/" + flavour)
+	}
 	run.Evaluations++
 	run.Count("mix/" + flavour)
 	run.Nontrivial(fmt.Sprintf("M%d", hseed))
